@@ -787,6 +787,22 @@ impl TcpConnecter {
       }
       attempt_count += 1;
 
+      // A connecter (re)spawned while the context or its parent socket was already shutting
+      // down subscribed to the event bus too late to see ContextTerminating / SocketClosing:
+      // consult the flags those events stand for, or it would keep retrying for ever.
+      if self
+        .context
+        .inner()
+        .shutdown_initiated
+        .load(std::sync::atomic::Ordering::Acquire)
+        || !self.socket_logic.core().is_running()
+      {
+        last_connect_attempt_error = Some(ZmqError::Internal(
+          "Shutdown already in progress (pre-connect).".into(),
+        ));
+        break 'connecter_life_loop;
+      }
+
       match system_event_rx.try_recv() {
         Ok(SystemEvent::ContextTerminating) => {
           last_connect_attempt_error = Some(ZmqError::Internal(
